@@ -138,3 +138,392 @@ Section ThreadsProofs.
     symmetry. apply count_remove_other. exact NE.
   Qed.
 End ThreadsProofs.
+
+(** * 2. Clients of one served directory *)
+
+(** ** Paths *)
+Lemma prefixes_comparable (a : path) : forall b x y,
+  a ++ x = b ++ y -> is_prefix a b = true \/ is_prefix b a = true.
+Proof.
+  induction a as [|s a IH]; intros b x y H; [left; reflexivity|].
+  destruct b as [|t b]; [right; reflexivity|].
+  cbn [app] in H. inversion H; subst t. cbn [is_prefix]. rewrite String.eqb_refl. cbn [andb].
+  eapply IH; eauto.
+Qed.
+
+Lemma incomparable_sym a b : incomparable a b = incomparable b a.
+Proof. unfold incomparable. apply andb_comm. Qed.
+
+Lemma incomparable_below c c' q y :
+  incomparable c c' = true -> incomparable (c ++ q) (c' ++ y) = true.
+Proof.
+  unfold incomparable. intro H. apply andb_true_iff in H. destruct H as [H1 H2].
+  apply negb_true_iff in H1. apply negb_true_iff in H2.
+  apply andb_true_iff. split; apply negb_true_iff.
+  - destruct (is_prefix (c ++ q) (c' ++ y)) eqn:E; auto. exfalso.
+    apply is_prefix_spec in E. destruct E as [suf E]. rewrite <- app_assoc in E.
+    symmetry in E. destruct (prefixes_comparable _ _ _ _ E); congruence.
+  - destruct (is_prefix (c' ++ y) (c ++ q)) eqn:E; auto. exfalso.
+    apply is_prefix_spec in E. destruct E as [suf E]. rewrite <- app_assoc in E.
+    destruct (prefixes_comparable _ _ _ _ E); congruence.
+Qed.
+
+Lemma incomparable_root root a b : incomparable (root ++ a) (root ++ b) = incomparable a b.
+Proof. unfold incomparable. rewrite !is_prefix_app_l. reflexivity. Qed.
+
+Lemma pairwise_nth (l : list path) : forall i j a b,
+  pairwise_incomparable l = true -> nth_error l i = Some a -> nth_error l j = Some b -> i <> j ->
+  incomparable a b = true.
+Proof.
+  induction l as [|c l IH]; intros i j a b P A B NE; [destruct i; discriminate|].
+  cbn [pairwise_incomparable] in P. apply andb_true_iff in P. destruct P as [F P].
+  rewrite forallb_forall in F.
+  destruct i as [|i], j as [|j]; cbn [nth_error] in *; try congruence.
+  - inversion A; subst a. apply F. eapply nth_error_In; eauto.
+  - inversion B; subst b. rewrite incomparable_sym. apply F. eapply nth_error_In; eauto.
+  - eapply IH; eauto.
+Qed.
+
+Lemma geto_seto_far p on x t y :
+  seto on p x = Some t -> incomparable p y = true -> geto (Some t) y = geto on y.
+Proof.
+  unfold incomparable. intros H I. apply andb_true_iff in I. destruct I as [I1 I2].
+  apply negb_true_iff in I1. apply negb_true_iff in I2. eapply geto_seto_other; eauto.
+Qed.
+
+Lemma geto_remo_far p on y : incomparable p y = true -> geto (remo on p) y = geto on y.
+Proof.
+  unfold incomparable. intros I. apply andb_true_iff in I. destruct I as [I1 I2].
+  apply negb_true_iff in I1. apply negb_true_iff in I2. apply geto_remo_other; auto.
+Qed.
+
+Lemma segs_under_spec c name q : segs_under c name = Some q <-> segs_of name = GOk (c ++ q).
+Proof.
+  unfold segs_under. destruct (segs_of name) as [s|e].
+  - rewrite strip_prefix_spec. split; [intros ->; reflexivity | intro H; inversion H; reflexivity].
+  - split; discriminate.
+Qed.
+
+Lemma hp_below root c q : hp root (c ++ q) = hp (root ++ c) q.
+Proof. unfold hp. apply app_assoc. Qed.
+
+(** ** Frame: a request of the client of [c] leaves everything incomparable with
+    [root ++ c] exactly as it was *)
+Section Frame.
+  Variables (root c y : path).
+  Hypothesis Hfar : forall q, incomparable (hp root (c ++ q)) y = true.
+
+  Lemma copy_move_checks_segs sb src dst ow ss n ds cr :
+    copy_move_checks root sb src dst ow = GOk (ss, n, ds, cr) ->
+    segs_of src = GOk ss /\ segs_of dst = GOk ds.
+  Proof.
+    unfold copy_move_checks.
+    destruct (segs_of src) as [ss0|]; [|discriminate].
+    destruct (segs_of dst) as [ds0|]; [|discriminate].
+    destruct (is_prefix ss0 ds0 || is_prefix ds0 ss0); [discriminate|].
+    destruct (geto sb (hp root ss0)); [|discriminate].
+    destruct (negb (is_dir (geto sb (hp root (parent ds0))))); [discriminate|].
+    destruct (exists_ (geto sb (hp root ds0))); [destruct ow|]; intro H; inversion H; auto.
+  Qed.
+
+  Lemma serve_frame sb r :
+    req_of_client c r = true -> geto (fst (serve root sb r)) y = geto sb y.
+  Proof.
+    unfold req_of_client. destruct (segs_under c (rpath r)) as [q|] eqn:Eq; [|discriminate].
+    apply segs_under_spec in Eq. intro H. apply andb_true_iff in H. destruct H as [_ Hd].
+    unfold serve. cbv zeta.
+    destruct (String.eqb (meth r) "OPTIONS").
+    { unfold do_options. destruct (segs_of (rpath r)); reflexivity. }
+    destruct (String.eqb (meth r) "GET").
+    { unfold do_get. destruct (stat root sb (dir_tag r) (rpath r)) as [[? [? ?|?]]|]; reflexivity. }
+    destruct (String.eqb (meth r) "HEAD").
+    { unfold do_get. destruct (stat root sb (dir_tag r) (rpath r)) as [[? [? ?|?]]|]; reflexivity. }
+    destruct (String.eqb (meth r) "PUT").
+    { unfold do_put. rewrite Eq.
+      destruct (req_cond r _); [reflexivity|].
+      destruct (is_dir _ || _); [reflexivity|].
+      destruct (negb _); [reflexivity|].
+      destruct (body_fails r); [reflexivity|].
+      destruct (seto sb (hp root (c ++ q)) _) eqn:E; [|reflexivity].
+      cbn [fst]. eapply geto_seto_far; eauto. }
+    destruct (String.eqb (meth r) "DELETE").
+    { unfold do_delete, stat. rewrite Eq.
+      destruct (geto sb (hp root (c ++ q))); [|reflexivity].
+      destruct (req_cond r _); [reflexivity|].
+      cbn [fst]. apply geto_remo_far. apply Hfar. }
+    destruct (String.eqb (meth r) "PROPFIND").
+    { unfold do_propfind.
+      destruct (pf r); try reflexivity;
+      (destruct (String.eqb (h_depth r) ""); [|destruct (String.eqb (h_depth r) "0"); [|destruct (String.eqb (h_depth r) "1"); [|destruct (String.eqb (h_depth r) "infinity"); [|reflexivity]]]]);
+      destruct (stat root sb (dir_tag r) (rpath r)) as [[? ?]|]; reflexivity. }
+    destruct (String.eqb (meth r) "MKCOL").
+    { unfold do_mkcol. destruct (negb (String.eqb (h_ctype r) "")); [reflexivity|]. rewrite Eq.
+      destruct (exists_ _); [reflexivity|].
+      destruct (negb _); [reflexivity|].
+      destruct (seto sb (hp root (c ++ q)) (Dir [])) eqn:E; [|reflexivity].
+      cbn [fst]. eapply geto_seto_far; eauto. }
+    destruct (String.eqb (meth r) "COPY" || String.eqb (meth r) "MOVE") eqn:CM; [|reflexivity].
+    unfold is_copy_move in Hd. rewrite CM in Hd.
+    unfold do_copy_move.
+    destruct (h_dest r) as [| |dst]; try reflexivity.
+    destruct (segs_under c dst) as [qd|] eqn:Ed; [|discriminate]. apply segs_under_spec in Ed.
+    assert (COPY : forall rec ow, geto (fst (do_copy root sb r dst rec ow)) y = geto sb y).
+    { intros rec ow. unfold do_copy.
+      destruct (copy_move_checks root sb (rpath r) dst ow) as [[[[ss n] ds] cr]|] eqn:Ec; [|reflexivity].
+      destruct (copy_move_checks_segs _ _ _ _ _ _ _ _ Ec) as [S1 S2].
+      rewrite Ed in S2. inversion S2; subst ds.
+      destruct (seto (remo sb (hp root (c ++ qd))) (hp root (c ++ qd)) _) eqn:E; [|reflexivity].
+      cbn [fst]. rewrite (geto_seto_far _ _ _ _ _ E (Hfar qd)). apply geto_remo_far. apply Hfar. }
+    assert (MOVE : forall ow, geto (fst (do_move root sb r dst ow)) y = geto sb y).
+    { intros ow. unfold do_move.
+      destruct (copy_move_checks root sb (rpath r) dst ow) as [[[[ss n] ds] cr]|] eqn:Ec; [|reflexivity].
+      destruct (copy_move_checks_segs _ _ _ _ _ _ _ _ Ec) as [S1 S2].
+      rewrite Ed in S2. inversion S2; subst ds. rewrite Eq in S1. inversion S1; subst ss.
+      destruct (seto (remo (remo sb (hp root (c ++ qd))) (hp root (c ++ q))) (hp root (c ++ qd)) n) eqn:E; [|reflexivity].
+      cbn [fst]. rewrite (geto_seto_far _ _ _ _ _ E (Hfar qd)).
+      rewrite geto_remo_far by apply Hfar. apply geto_remo_far. apply Hfar. }
+    destruct (String.eqb (h_overwrite r) ""); [|destruct (String.eqb (h_overwrite r) "T"); [|destruct (String.eqb (h_overwrite r) "F"); [|reflexivity]]];
+    (destruct (String.eqb (h_depth r) ""); [|destruct (String.eqb (h_depth r) "0"); [|destruct (String.eqb (h_depth r) "1"); [|destruct (String.eqb (h_depth r) "infinity"); [|reflexivity]]]]);
+    destruct (String.eqb (meth r) "COPY"); cbv iota; cbn [N.eqb Pos.eqb negb];
+    first [apply COPY | apply MOVE | reflexivity].
+  Qed.
+End Frame.
+
+(** ** Locality: what a request of the client of [c] answers, and what it makes of
+    the subtree at [root ++ c], is a function of that subtree *)
+
+Lemma seto_keeps_dir ch q x t : q <> [] -> seto (Some (Dir ch)) q x = Some t -> is_dir (Some t) = true.
+Proof.
+  destruct q as [|s r]; [congruence|]. intros _ H. cbn [seto] in H.
+  destruct (seto (assoc s ch) r x); inversion H; reflexivity.
+Qed.
+
+Lemma remo_keeps_dir ch q : q <> [] -> is_dir (remo (Some (Dir ch)) q) = true.
+Proof.
+  destruct q as [|s r]; [congruence|]. intros _. cbn [remo].
+  destruct (assoc s ch); [|reflexivity]. destruct (remo (Some n) r); reflexivity.
+Qed.
+
+Lemma parent_below (c q : path) : q <> [] -> parent (c ++ q) = c ++ parent q.
+Proof. intro H. unfold parent. apply removelast_app. exact H. Qed.
+
+Section View.
+  Variables (root c : path) (ch : list (string * node)) (s : option node).
+  Let P := root ++ c.
+  Let n := Dir ch.
+  Hypothesis Hv : geto s P = Some n.
+
+  Lemma lk q : geto s (hp root (c ++ q)) = geto (Some n) q.
+  Proof. rewrite hp_below. apply (look P s n Hv q). Qed.
+
+  Lemma lk_parent q : q <> [] -> geto s (hp root (parent (c ++ q))) = geto (Some n) (parent q).
+  Proof. intro H. rewrite parent_below by exact H. apply lk. Qed.
+
+  Lemma lk_parent2 q : q <> [] -> geto s (parent (hp root (c ++ q))) = geto (Some n) (parent q).
+  Proof.
+    intro H. rewrite hp_below. unfold hp, parent. rewrite removelast_app by exact H.
+    rewrite geto_app. fold P. rewrite Hv. reflexivity.
+  Qed.
+
+  Lemma st q x :
+    match seto s (hp root (c ++ q)) x, seto (Some n) q x with
+    | Some t, Some n' => geto (Some t) P = Some n'
+    | None, None => True
+    | _, _ => False
+    end.
+  Proof. rewrite hp_below. apply (set_view P s n Hv q x). Qed.
+
+  Lemma rm q : q <> [] -> geto (remo s (hp root (c ++ q))) P = remo (Some n) q.
+  Proof.
+    intro H. rewrite hp_below. pose proof (rem_view P s n Hv q) as R.
+    unfold hp in *. cbn [app] in R. exact R.
+  Qed.
+End View.
+
+Section Local.
+  Variables (root c : path) (ch : list (string * node)).
+  Local Notation P := (root ++ c).
+  Local Notation n := (Dir ch).
+
+  (** the outcome of one action as seen by the client: result, new view *)
+  Definition seen (a : act) (s : option node) : result * option node :=
+    (snd (act_step root s a), geto (fst (act_step root s a)) P).
+
+  Variables s1 s2 : option node.
+  Hypothesis Hv1 : geto s1 P = Some n.
+  Hypothesis Hv2 : geto s2 P = Some n.
+
+  Ltac reads := rewrite ?(lk root c ch s1 Hv1), ?(lk root c ch s2 Hv2).
+  Ltac same := split; [reflexivity | split; [rewrite Hv1, Hv2; reflexivity | rewrite Hv1; reflexivity]].
+
+  (** writing [x] at [c ++ q] in both sandboxes *)
+  Lemma set_both q x :
+    q <> [] ->
+    match seto s1 (hp root (c ++ q)) x, seto s2 (hp root (c ++ q)) x with
+    | Some t1, Some t2 => geto (Some t1) P = geto (Some t2) P /\ is_dir (geto (Some t1) P) = true
+    | None, None => True
+    | _, _ => False
+    end.
+  Proof.
+    intro Hq. pose proof (st root c ch s1 Hv1 q x) as A. pose proof (st root c ch s2 Hv2 q x) as B.
+    destruct (seto s1 (hp root (c ++ q)) x) as [t1|]; destruct (seto s2 (hp root (c ++ q)) x) as [t2|];
+      destruct (seto (Some n) q x) as [n'|] eqn:E; try contradiction; auto.
+    split; [congruence|]. rewrite A. eapply seto_keeps_dir; eauto.
+  Qed.
+
+  Definition agree (X1 X2 : option node * response) : Prop :=
+    snd X1 = snd X2 /\ geto (fst X1) P = geto (fst X2) P /\ is_dir (geto (fst X1) P) = true.
+
+  Lemma agree_same resp : agree (s1, resp) (s2, resp).
+  Proof. unfold agree. cbn [fst snd]. rewrite Hv1, Hv2. auto. Qed.
+
+  Lemma put_local r q : segs_of (rpath r) = GOk (c ++ q) -> agree (do_put root s1 r) (do_put root s2 r).
+  Proof.
+    intro Eq. unfold do_put. rewrite Eq. reads.
+    destruct (req_cond r _); [apply agree_same|].
+    destruct q as [|x q'].
+    { (* the collection itself: a collection, 405 *)
+      cbn [geto is_dir orb]. apply agree_same. }
+    destruct (is_dir (geto (Some n) (x :: q')) || match c ++ x :: q' with [] => true | _ => false end); [apply agree_same|].
+    rewrite !(lk_parent root c ch s1 Hv1), !(lk_parent root c ch s2 Hv2) by discriminate.
+    destruct (negb (is_dir (geto (Some n) (parent (x :: q'))))); [apply agree_same|].
+    destruct (body_fails r); [apply agree_same|].
+    pose proof (set_both (x :: q') (File (body r) (stamp r))) as S.
+    destruct (seto s1 (hp root (c ++ x :: q')) _) as [t1|]; destruct (seto s2 (hp root (c ++ x :: q')) _) as [t2|];
+      try (exfalso; apply S; discriminate); try apply agree_same.
+    destruct S as [S1 S2]; [discriminate|]. unfold agree. cbn [fst snd]. auto.
+  Qed.
+
+  Lemma rm_both q :
+    q <> [] ->
+    geto (remo s1 (hp root (c ++ q))) P = geto (remo s2 (hp root (c ++ q))) P /\
+    exists ch', geto (remo s1 (hp root (c ++ q))) P = Some (Dir ch').
+  Proof.
+    intro Hq. rewrite (rm root c ch s1 Hv1 q Hq), (rm root c ch s2 Hv2 q Hq). split; [reflexivity|].
+    pose proof (remo_keeps_dir ch q Hq) as D.
+    destruct (remo (Some n) q) as [[? ?|ch']|]; try discriminate. eauto.
+  Qed.
+
+  Lemma delete_local r q :
+    segs_of (rpath r) = GOk (c ++ q) -> q <> [] -> agree (do_delete root s1 r) (do_delete root s2 r).
+  Proof.
+    intros Eq Hq. unfold do_delete, stat. rewrite Eq. reads.
+    destruct (geto (Some n) q); [|apply agree_same].
+    destruct (req_cond r _); [apply agree_same|].
+    destruct (rm_both q Hq) as [A [ch' B]]. unfold agree. cbn [fst snd].
+    split; [reflexivity|]. split; [exact A|]. rewrite B. reflexivity.
+  Qed.
+
+  Lemma mkcol_local r q : segs_of (rpath r) = GOk (c ++ q) -> agree (do_mkcol root s1 r) (do_mkcol root s2 r).
+  Proof.
+    intro Eq. unfold do_mkcol. destruct (negb (String.eqb (h_ctype r) "")); [apply agree_same|].
+    rewrite Eq. reads.
+    destruct (exists_ (geto (Some n) q)) eqn:Ex; [apply agree_same|].
+    assert (Hq : q <> []) by (intros ->; cbn in Ex; discriminate).
+    rewrite (lk_parent2 root c ch s1 Hv1 q Hq), (lk_parent2 root c ch s2 Hv2 q Hq).
+    destruct (negb (is_dir (geto (Some n) (parent q)))); [apply agree_same|].
+    pose proof (set_both q (Dir []) Hq) as S.
+    destruct (seto s1 (hp root (c ++ q)) _) as [t1|]; destruct (seto s2 (hp root (c ++ q)) _) as [t2|];
+      try contradiction; try apply agree_same.
+    destruct S as [S1 S2]. unfold agree. cbn [fst snd]. auto.
+  Qed.
+
+  Lemma checks_local src dst ow qs qd :
+    segs_of src = GOk (c ++ qs) -> segs_of dst = GOk (c ++ qd) ->
+    copy_move_checks root s1 src dst ow = copy_move_checks root s2 src dst ow.
+  Proof.
+    intros E1 E2. unfold copy_move_checks. rewrite E1, E2. rewrite is_prefix_app_l, is_prefix_app_l.
+    destruct (is_prefix qs qd || is_prefix qd qs) eqn:Epre; [reflexivity|].
+    assert (Hqd : qd <> []).
+    { intros ->. apply orb_false_iff in Epre. destruct Epre as [_ E]. discriminate. }
+    reads. rewrite (lk_parent root c ch s1 Hv1 qd Hqd), (lk_parent root c ch s2 Hv2 qd Hqd). reflexivity.
+  Qed.
+
+  Lemma checks_below sb src dst ow qs qd ss n0 ds cr :
+    segs_of src = GOk (c ++ qs) -> segs_of dst = GOk (c ++ qd) ->
+    copy_move_checks root sb src dst ow = GOk (ss, n0, ds, cr) ->
+    ss = c ++ qs /\ ds = c ++ qd /\ qs <> [] /\ qd <> [].
+  Proof.
+    intros E1 E2 Hc. destruct (copy_move_checks_segs _ _ _ _ _ _ _ _ _ Hc) as [S1 S2].
+    rewrite E1 in S1. rewrite E2 in S2. inversion S1; inversion S2; subst.
+    split; [reflexivity|]. split; [reflexivity|].
+    unfold copy_move_checks in Hc. rewrite E1, E2, !is_prefix_app_l in Hc.
+    destruct (is_prefix qs qd || is_prefix qd qs) eqn:Epre; [discriminate|].
+    apply orb_false_iff in Epre. destruct Epre as [A B].
+    split; intros ->; discriminate.
+  Qed.
+
+  Lemma copy_local r dst rec ow qs qd :
+    segs_of (rpath r) = GOk (c ++ qs) -> segs_of dst = GOk (c ++ qd) ->
+    agree (do_copy root s1 r dst rec ow) (do_copy root s2 r dst rec ow).
+  Proof.
+    intros E1 E2. unfold do_copy. rewrite <- (checks_local _ _ ow _ _ E1 E2).
+    destruct (copy_move_checks root s1 (rpath r) dst ow) as [[[[ss n0] ds] cr]|] eqn:Ec; [|apply agree_same].
+    destruct (checks_below _ _ _ _ _ _ _ _ _ _ E1 E2 Ec) as (-> & -> & Hqs & Hqd).
+    destruct (rm_both qd Hqd) as [A [ch' B]].
+    set (x := if rec then copy_tree (stamp r) n0 else copy_shallow (stamp r) n0).
+    assert (B2 : geto (remo s2 (hp root (c ++ qd))) P = Some (Dir ch')) by (rewrite <- A; exact B).
+    pose proof (st root c ch' (remo s1 (hp root (c ++ qd))) B qd x) as S1.
+    pose proof (st root c ch' (remo s2 (hp root (c ++ qd))) B2 qd x) as S2.
+    destruct (seto (remo s1 (hp root (c ++ qd))) (hp root (c ++ qd)) x) as [t1|];
+      destruct (seto (remo s2 (hp root (c ++ qd))) (hp root (c ++ qd)) x) as [t2|];
+      destruct (seto (Some (Dir ch')) qd x) as [n'|] eqn:E; try contradiction; try apply agree_same.
+    unfold agree. cbn [fst snd]. split; [reflexivity|]. split; [congruence|].
+    rewrite S1. eapply seto_keeps_dir; eauto.
+  Qed.
+
+  Lemma move_local r dst ow qs qd :
+    segs_of (rpath r) = GOk (c ++ qs) -> segs_of dst = GOk (c ++ qd) ->
+    agree (do_move root s1 r dst ow) (do_move root s2 r dst ow).
+  Proof.
+    intros E1 E2. unfold do_move. rewrite <- (checks_local _ _ ow _ _ E1 E2).
+    destruct (copy_move_checks root s1 (rpath r) dst ow) as [[[[ss n0] ds] cr]|] eqn:Ec; [|apply agree_same].
+    destruct (checks_below _ _ _ _ _ _ _ _ _ _ E1 E2 Ec) as (-> & -> & Hqs & Hqd).
+    destruct (rm_both qd Hqd) as [A [ch' B]].
+    assert (B2 : geto (remo s2 (hp root (c ++ qd))) P = Some (Dir ch')) by (rewrite <- A; exact B).
+    (* second removal: the source *)
+    pose proof (rm root c ch' (remo s1 (hp root (c ++ qd))) B qs Hqs) as R1.
+    pose proof (rm root c ch' (remo s2 (hp root (c ++ qd))) B2 qs Hqs) as R2.
+    pose proof (remo_keeps_dir ch' qs Hqs) as D.
+    destruct (remo (Some (Dir ch')) qs) as [[? ?|ch'']|] eqn:Er; try discriminate.
+    pose proof (st root c ch'' _ R1 qd n0) as S1. pose proof (st root c ch'' _ R2 qd n0) as S2.
+    destruct (seto (remo (remo s1 (hp root (c ++ qd))) (hp root (c ++ qs))) (hp root (c ++ qd)) n0) as [t1|];
+      destruct (seto (remo (remo s2 (hp root (c ++ qd))) (hp root (c ++ qs))) (hp root (c ++ qd)) n0) as [t2|];
+      destruct (seto (Some (Dir ch'')) qd n0) as [n'|] eqn:E; try contradiction; try apply agree_same.
+    unfold agree. cbn [fst snd]. split; [reflexivity|]. split; [congruence|].
+    rewrite S1. eapply seto_keeps_dir; eauto.
+  Qed.
+
+  (** a request of the client: same answer from both sandboxes, same new subtree, still a collection *)
+  Theorem serve_local r :
+    req_of_client c r = true -> agree (serve root s1 r) (serve root s2 r).
+  Proof.
+    unfold req_of_client. destruct (segs_under c (rpath r)) as [q|] eqn:Eq; [|discriminate].
+    apply segs_under_spec in Eq. intro H. apply andb_true_iff in H. destruct H as [Hdel Hd].
+    unfold serve. cbv zeta.
+    destruct (String.eqb (meth r) "OPTIONS").
+    { unfold do_options. rewrite Eq. reads. apply agree_same. }
+    destruct (String.eqb (meth r) "GET").
+    { unfold do_get, stat. rewrite Eq. reads. destruct (geto (Some n) q) as [[? ?|?]|]; apply agree_same. }
+    destruct (String.eqb (meth r) "HEAD").
+    { unfold do_get, stat. rewrite Eq. reads. destruct (geto (Some n) q) as [[? ?|?]|]; apply agree_same. }
+    destruct (String.eqb (meth r) "PUT"); [apply (put_local r q Eq)|].
+    destruct (String.eqb (meth r) "DELETE").
+    { apply (delete_local r q Eq). destruct q; [discriminate|discriminate]. }
+    destruct (String.eqb (meth r) "PROPFIND").
+    { unfold do_propfind, stat. rewrite Eq. reads.
+      destruct (pf r); try apply agree_same;
+      (destruct (String.eqb (h_depth r) ""); [|destruct (String.eqb (h_depth r) "0"); [|destruct (String.eqb (h_depth r) "1"); [|destruct (String.eqb (h_depth r) "infinity"); [|apply agree_same]]]]);
+      destruct (geto (Some n) q); apply agree_same. }
+    destruct (String.eqb (meth r) "MKCOL"); [apply (mkcol_local r q Eq)|].
+    destruct (String.eqb (meth r) "COPY" || String.eqb (meth r) "MOVE") eqn:CM; [|apply agree_same].
+    unfold is_copy_move in Hd. rewrite CM in Hd.
+    unfold do_copy_move.
+    destruct (h_dest r) as [| |dst]; try apply agree_same.
+    destruct (segs_under c dst) as [qd|] eqn:Ed; [|discriminate]. apply segs_under_spec in Ed.
+    destruct (String.eqb (h_overwrite r) ""); [|destruct (String.eqb (h_overwrite r) "T"); [|destruct (String.eqb (h_overwrite r) "F"); [|apply agree_same]]];
+    (destruct (String.eqb (h_depth r) ""); [|destruct (String.eqb (h_depth r) "0"); [|destruct (String.eqb (h_depth r) "1"); [|destruct (String.eqb (h_depth r) "infinity"); [|apply agree_same]]]]);
+    destruct (String.eqb (meth r) "COPY"); cbv iota; cbn [N.eqb Pos.eqb negb];
+    first [apply (copy_local r dst _ _ q qd Eq Ed) | apply (move_local r dst _ q qd Eq Ed) | apply agree_same].
+  Qed.
+End Local.
